@@ -38,7 +38,14 @@ META = dict(
          "date-named backup holds records up to the end of its day), one day older, one day younger, pre-existing and "
          "just produced by the day-change rotation (current file started yesterday); (7) 'bigburst': bursts of 20-60 "
          "records of 10-30 KB, several times maxSize, so that the writer's queue holds a backlog; 'largesmall': a large "
-         "record that triggers a rotation followed by many small ones. The barrier is bounded (ShallRotate call count, "
+         "record that triggers a rotation followed by many small ones; (8) 'flood' (GFloods in RotateLogGen.tla): ONE producer "
+         "writes 300-2000 small self-identifying records in a tight loop with no barrier - several times the capacity of the "
+         "writer's queue (100 slots), so Write finds the queue full (guarded: a run in which no flood ever had as many records "
+         "outstanding as the queue has slots is vacuous) - followed by a barrier (unchanged Write blocks on a full queue, so "
+         "every record it accepted is processed by then: all of them must be there, once, complete, in the order of "
+         "acceptance - clause burst-order names the case 'all there, wrong order') or by Close with the tail still queued "
+         "(those present in order); size rule with dozens of rotations inside a flood, gzip + clean-up racing, 1 MB (no "
+         "rotation), daily rule with and without a day change before the flood. The barrier is bounded (ShallRotate call count, "
          "falling back to 'queue empty and every writer goroutine parked in its select'): the files decide. Not covered: a run that spans local midnight; bursts in "
          "configurations where a backup created during the burst may itself be outdated; plain-text encoding and volume mode.",
     technique="TLA+ directory model + TLC-generated histories + TLC trace validation of the real logger's files",
@@ -82,21 +89,22 @@ def mc(ctx):
 
 # ------------------------------------------------------------------------------- generate / record / validate
 
-def gen(ctx, name, confs, sizes, maxops, maxday, simulate=None, fams=("",), burst=(), prefixes=((),)):
+def gen(ctx, name, confs, sizes, maxops, maxday, simulate=None, fams=("",), burst=(), prefixes=((),), floods=()):
     K = dict(GConfigs="{" + ", ".join(tla_cfg(c) for c in confs) + "}", GSizes="{%s}" % ", ".join(map(str, sizes)),
              MaxOps=maxops, MaxDay=maxday, GFams="{%s}" % ", ".join('"%s"' % f for f in fams),
              GBurst="{%s}" % ", ".join("<<%s>>" % ", ".join(map(str, b)) for b in burst),
-             GPrefixes="{%s}" % ", ".join("<<%s>>" % ", ".join(map(str, b)) for b in prefixes))
+             GPrefixes="{%s}" % ", ".join("<<%s>>" % ", ".join(map(str, b)) for b in prefixes),
+             GFloods="{%s}" % ", ".join("<<%d, %d, %d>>" % tuple(fl) for fl in floods))
     cfg = core.render_cfg(spec="GSpec", constants=K, invariants=["Emit"])
     r = ctx.tlc("RotateLogGen", cfg, constants=K, name=name, simulate=simulate, depth=(maxops + 4 if simulate else None),
                 timeout=1200, workers=(1 if simulate else 6))
     return r.printed
 
 
-def record(ctx, binp, label, cases_path, shards=16):
+def record(ctx, binp, label, cases_path, shards=16, env=None):
     prefix = os.path.join(ctx.build, "trace-" + label)
     cnt, bad = ctx.replay(PKG, OVERLAY, RUN, cases_path, label=label, binp=binp, shards=shards,
-                          env=dict(VERIF_TRACE=prefix, VERIF_LABEL=label), source="record", timeout=1200)
+                          env=dict(env or {}, VERIF_TRACE=prefix, VERIF_LABEL=label), source="record", timeout=1200)
     if bad:
         raise core.Infra("C19 recorder reported verdicts (it must only record): %s" % bad[:2])
     hists = []
@@ -119,17 +127,35 @@ def record(ctx, binp, label, cases_path, shards=16):
     return hists, cnt
 
 
+def short(ids, runs=10):
+    """record ids with runs of consecutive ids folded (a..b): a flood in order is one run, every place
+    where the order of acceptance is broken starts a new one"""
+    ids = list(ids or [])
+    if len(ids) <= 12:
+        return str(ids)
+    out, i = [], 0
+    while i < len(ids) and len(out) < runs:
+        j = i
+        while j + 1 < len(ids) and ids[j + 1] == ids[j] + 1:
+            j += 1
+        out.append(str(ids[i]) if j == i else "%d..%d" % (ids[i], ids[j]))
+        i = j + 1
+    return "[%s%s](%d ids)" % (", ".join(out), ", ..." if i < len(ids) else "", len(ids))
+
+
 def brief(e):
     if e["ev"] in ("daychange",):
         return "daychange"
-    d = "cur=%s(%sB) backups=%s" % (e.get("cur"), e.get("cb"),
-                                   [("%s%s%s" % (f["ts"], "z" if f["gz"] else "", f["recs"])) for f in e.get("files", [])])
+    files = e.get("files", [])
+    shown = files if len(files) <= 6 else files[:3] + files[-3:]
+    d = "cur=%s(%sB) backups%s=%s" % (short(e.get("cur")), e.get("cb"), "" if shown is files else "(%d, first and last 3)" % len(files),
+                                     [("%s%s%s" % (f["ts"], "z" if f["gz"] else "", short(f["recs"]))) for f in shown])
     if e["ev"] == "write":
         return "write #%s size %s -> %s" % (e["id"], e["size"], d)
     if e["ev"] == "close":
         return "close(err=%r) -> %s" % (e.get("err"), d)
     if e["ev"] in ("burst", "closeq"):
-        return "%s %s -> %s" % (e["ev"], e.get("ids"), d)
+        return "%s %s -> %s" % (e["ev"], short(e.get("ids")), d)
     return "init %s -> %s" % (e.get("cfg"), d)
 
 
@@ -200,8 +226,17 @@ def plans(ctx):
     KB = 1024
     BIG = [tuple([10 * KB] * 40), tuple([12 * KB, 20 * KB] * 15), tuple([10 * KB] * 60), tuple([16 * KB] * 20)]
     big_confs = [C("size", 100 * KB), C("size", 100 * KB, gzip=True, days=2, pre=[73, 1]), C("size", 64 * KB, maxBackups=0, pre=[1], precur=20)]
+    # floods: ONE producer writes 300-2000 small records in a tight loop with no barrier - several times the
+    # capacity of the writer's queue (100), so Write finds the queue full - then a barrier (or Close with the tail
+    # still queued); both rules, rotation on (small maxSize: dozens of rotations inside a flood; a day change
+    # before the flood) and off (1 MB; daily rule with no day change).  Judged at quiescence by BurstFailed:
+    # every record accepted and processed is there once, complete, in the order of acceptance (burst-order).
+    FLOODS = [(300, 12, 4), (2000, 16, 3)]
+    flood_confs = [C("size", 2 * KB), C("size", KB, gzip=True, days=2, pre=[73, 1]), C("size", MB),
+                   C("daily"), C("daily", days=2, gzip=True, pre=[96, 24])]
     P = []
     if ctx.quick:
+        P.append(dict(name="flood", confs=flood_confs, sizes=[], maxops=2, maxday=1, floods=FLOODS, shards=8, chunk=50))
         P.append(dict(name="boundary", confs=bound_confs, sizes=[40], maxops=3, maxday=1))
         P.append(dict(name="bigburst", confs=big_confs, sizes=[30 * KB], maxops=2, maxday=0, burst=BIG))
         P.append(dict(name="largesmall", confs=ls_confs, sizes=[8, 16], maxops=8, maxday=0, prefixes=LS_PREFIX))
@@ -238,6 +273,9 @@ def plans(ctx):
                       burst=BIG + [tuple([10 * KB, 30 * KB, 11 * KB] * 20)]))
         P.append(dict(name="largesmall", confs=ls_confs + [C("size", 64, days=2, maxBackups=1, pre=[49], precur=20)],
                       sizes=[8, 16], maxops=9, maxday=0, prefixes=LS_PREFIX + [(32, 40, 8, 8)]))
+        P.append(dict(name="flood", confs=flood_confs + [C("size", 256), C("size", 4 * KB, maxBackups=0, gzip=True, pre=[1], precur=20),
+                                                         C("daily", days=1, pre=[48, 24], precur=20)],
+                      sizes=[16], maxops=2, maxday=1, floods=FLOODS + [(700, 24, 0), (1200, 9, 30)], shards=8, chunk=100))
         P.append(dict(name="burst", confs=burst_confs, sizes=[32, 65], maxops=4, maxday=1, burst=BURSTS))
         P.append(dict(name="burst5", confs=[C("size", 64, maxBackups=5, gzip=True, pre=[200, 73, 49, 1], delim="_"),
                                             C("size", 64, gzip=True, days=2, pre=[73, 1]), C("size", 64, pre=[1], precur=20)],
@@ -262,7 +300,8 @@ def run(ctx):
     tot = {}
     for p in plans(ctx):
         cases = gen(ctx, p["name"], p["confs"], p["sizes"], p["maxops"], p["maxday"], simulate=p.get("simulate"),
-                    fams=p.get("fams", ("",)), burst=p.get("burst", ()), prefixes=p.get("prefixes", ((),)))
+                    fams=p.get("fams", ("",)), burst=p.get("burst", ()), prefixes=p.get("prefixes", ((),)),
+                    floods=p.get("floods", ()))
         if not cases:
             raise core.Infra("generator %s produced no history" % p["name"])
         if p.get("pick") and len(cases) > p["pick"]:
@@ -274,13 +313,13 @@ def run(ctx):
             ctx.notes[p["name"] + ".sampled"] = p["pick"]
         path, cnt = ctx.write_cases(p["name"] + ".ndjson", cases)
         ctx.samples += core.sample_of(cases, 1)
-        hists, counters = record(ctx, binp, p["name"], path)
+        hists, counters = record(ctx, binp, p["name"], path, shards=p.get("shards", 16))
         ncases = len({json.loads(h[0]).get("h") for h in hists})      # the public family records one history per log file
         if ncases != cnt:
             raise core.Infra("%s: %d histories generated, %d recorded" % (p["name"], cnt, ncases))
         for k, v in counters.items():
             tot[k] = tot.get(k, 0) + v
-        tv.validate(ctx, p["name"], hists, tspec(), path)
+        tv.validate(ctx, p["name"], hists, tspec(), path, chunk_events=p.get("chunk", 20000))
         q = m = 0
         for h in hists:
             for line in h:
@@ -301,11 +340,16 @@ def run(ctx):
     if tot.get("daychanges", 0) == 0:
         raise core.Infra("vacuous run: no simulated day change")
     for k in ("public_api_size", "public_api_daily", "public_rotations", "public_info", "public_error", "public_severe",
-              "public_slow", "public_stat", "burst_records", "closeq_records"):
+              "public_slow", "public_stat", "burst_records", "closeq_records", "flood_bursts", "flood_closeq"):
         if tot.get(k, 0) == 0:
             raise core.Infra("vacuous run: %s = 0 (%s)" % (k, tot))
     if tot.get("config_path_size", 0) == 0 or tot.get("config_path_daily", 0) == 0 or tot.get("config_rotations", 0) < 3:
         raise core.Infra("vacuous run: the logging-configuration path (size and daily) was not exercised: %s" % tot)
+    # the floods are there to make the single producer outrun the writer: at least some of them must have found
+    # the queue full (as many records outstanding as the queue has slots)
+    if tot.get("flood_queue_full", 0) == 0:
+        raise core.Infra("vacuous run: in none of %d floods did the producer find the writer's queue full (%s)" % (
+            tot.get("flood_bursts", 0), tot))
     ctx.notes["driver_totals"] = tot
     ctx.states = sum(t["distinct"] for t in ctx.tlc_runs)
     ctx.transitions = sum(t["generated"] for t in ctx.tlc_runs)
